@@ -27,7 +27,7 @@ import common
 import proofs
 
 FILES = ["Model_scsv.v", "Proofs_scsv.v", "Model_scsv_frame.v", "Proofs_scsv_frame.v", "Model_scsv_header.v",
-         "Proofs_scsv_header.v", "Model_scsv_py.v", "gen/Gen_scsv.v", "Inst_scsv.v", "Entry_scsv.v"]
+         "Proofs_scsv_header.v", "Model_scsv_py.v", "gen/Gen_scsv.v", "Inst_scsv.v", "Inst_scsv_save.v", "Entry_scsv.v"]
 PROP = "Properties/C16.v"
 WS = " \t\n\r\x0b\x0c\x1c\x1d\x1e\x1f"
 TYPEMAP = {"string": str, "integer": int, "float": float, "boolean": bool, "complex": complex}
@@ -179,6 +179,47 @@ def cy(v):
     if isinstance(v, str):
         return "(YStr %s)" % cs(v)
     return "YOther"
+
+
+_PYTYPES = {str: "TStr", int: "TInt", float: "TFloat", bool: "TBool", complex: "TCplx"}
+
+
+def cpy(v):
+    """a Python value as a term of Model_scsv_py.pyval (anything outside the universe: POther)"""
+    if v is None:
+        return "PNone"
+    if isinstance(v, bool):
+        return "(PBool %s)" % cb(v)
+    if isinstance(v, int):
+        return "(PInt %s)" % cz(v)
+    if isinstance(v, float):
+        return "(PFloat %s)" % cf(v)
+    if isinstance(v, complex):
+        return "(PCplx %s %s)" % (cf(v.real), cf(v.imag))
+    if isinstance(v, str):
+        return "(PStr %s)" % cs(v)
+    if isinstance(v, list):
+        return "(PList %s)" % clist(v, cpy)
+    if isinstance(v, tuple):
+        return "(PTuple %s)" % clist(v, cpy)
+    if isinstance(v, dict) and all(isinstance(k, str) for k in v):
+        return "(PDict %s)" % clist(list(v.items()), lambda kv: "(%s, %s)" % (cs(kv[0]), cpy(kv[1])))
+    if isinstance(v, type) and v in _PYTYPES:
+        return "(PType %s)" % _PYTYPES[v]
+    return '(POther "x")'
+
+
+def walk_values(v):
+    """every scalar inside a nested Python value (for the oracle tables)"""
+    if isinstance(v, (list, tuple)):
+        for x in v:
+            yield from walk_values(x)
+    elif isinstance(v, dict):
+        for k, x in v.items():
+            yield k
+            yield from walk_values(x)
+    else:
+        yield v
 
 
 def copt(x, f):
@@ -1098,6 +1139,60 @@ def gen_quote_cases(cases):
     return out
 
 
+LOOKALIKES = ["True", "true", "TRUE", "T", "t", "yes", "Yes", "1", "0", "no", "False", "1.0", "1.", ".5", "nan", "NaN", "-nan", "inf",
+              "-inf", "Infinity", "1e3", "1E3", "1e", "0x10", "0b1", "0o7", "1_000", "1__0", "_1", "1_", "+5", "-0", "-0.0", " 7 ",
+              "\t8", "9\n", "", " ", "1j", "(1+2j)", "1+2j", "nanj", "abc", "٣", "1,5", "1 000", "--", "-", "NA"]
+
+
+def gen_direct_cases(rng, scale):
+    """the generated functions of coq/gen/Gen_scsv.v run directly on raw Python values (tie T: the primitives of
+    Model_scsv_py.v against the real builtins), also outside the typed model"""
+    cases = []
+
+    def base():
+        return {"delimiter": ",", "missing": "-", "fields": [{"name": "a", "type": "float", "fill": "NaN"}, {"name": "b"}]}
+    weird = [None, [], "delimiter", 5, ["delimiter", "missing", "fields"], ("delimiter", "missing", "fields"), {},
+             {"delimiter": ","}, {"delimiter": ",", "missing": "-"}, {"fields": [], "delimiter": ",", "missing": "-"}, base()]
+    for key in ("delimiter", "missing"):
+        for v in (5, None, True, 1.5, ["a"], ("a",), [","], {"a": 1}, {",": 1}, "", ",", "-", ",-", "ab", 1j, str):
+            sch = base()
+            sch[key] = v
+            weird.append(sch)
+    for v in (None, 5, "ab", (), ({"name": "a"},), ({"name": "a"}, {"name": "b c"}), {"name": "a"}, [None], [5], ["a"], [[("name", "a")]],
+              [{}], [{"name": None}], [{"name": 5}], [{"name": ["a"]}], [{"name": True}], [{"name": 1.5}], [{"name": str}],
+              [{"name": "a", "type": 5}], [{"name": "a", "type": None}], [{"name": "a", "type": ["float"]}], [{"name": "a", "type": ("float",)}],
+              [{"name": "a", "type": {}}], [{"name": "a", "type": "float", "fill": None}], [{"name": "a", "type": "complex", "fill": 1j}],
+              [{"name": "a", "type": "integer", "unit": "m"}], [{"type": "string", "name": "x", "fill": [1]}],
+              [{"name": "a", "extra": {"k": 1}}, {"name": "bad name"}], [{"name": "a"}, {"type": "float"}],
+              [{"name": "a", "type": "boolean"}, {"name": "b", "type": "Boolean"}], [{"name": "a", "type": "complex"}],
+              [{"name": "a", "type": "string", "fill": 0}, {"name": "b", "type": "integer", "fill": None}, None]):
+        sch = base()
+        sch["fields"] = v
+        weird.append(sch)
+    for sch in weird:
+        cases.append({"kind": "gen_validate", "stream": "gen-direct", "schema": sch})
+    for k in range(30 * scale):                 # valid / single-fault schemas through the generated function as well
+        sch = gen_schema(rng, nfields=int(rng.integers(1, 5)))
+        if rng.random() < 0.5:
+            sch, _ = apply_fault(rng, DOCUMENTED_FAULTS[rng.integers(9)], sch, gen_data(rng, sch, nrows=1))
+        if rng.random() < 0.3:
+            sch["fields"] = tuple(sch["fields"]) if "fields" in sch else ()
+        cases.append({"kind": "gen_validate", "stream": "gen-direct", "schema": sch})
+    # _parse_scsv_cell / _parse_scsv_bool on look-alike texts, every type, markers and fills of every kind
+    fills = [None, "NaN", "", "abc", "0", 0, 5, 1.5, float("nan"), True, False, "0x10", "1_000", "nan", " 3 ", 1j, [1], "None", "1.0"]
+    markers = ["", "-", "NA", "nan", "1", "True", None, "NaN", "0", "1.0"]
+    for t in (str, int, float, bool, complex):
+        for x in LOOKALIKES:
+            for m in (["", "-", x.strip(), None] if scale == 1 else markers + [x.strip(), x]):
+                f = fills[int(rng.integers(len(fills)))]
+                cases.append({"kind": "gen_cell", "stream": "gen-direct", "func": t, "data": x, "missing": m, "fill": f})
+        for f in fills:                          # every fill once, cell = marker
+            cases.append({"kind": "gen_cell", "stream": "gen-direct", "func": t, "data": " - ", "missing": "-", "fill": f})
+    for x in LOOKALIKES + [5, 1, 0, None, True, False, 1.0, 0.0, 1j, [1], "YES", "tRuE", " true"]:
+        cases.append({"kind": "gen_bool", "stream": "gen-direct", "x": x})
+    return cases
+
+
 def gen_cases(chk, tier):
     rng = np.random.default_rng(chk.seed)
     scale = 1 if tier == "quick" else 6
@@ -1195,6 +1290,8 @@ def gen_cases(chk, tier):
     uni = gen_unicode_cases(rng)
     cases += uni
     cases += gen_quote_cases(uni)
+    # (10) the generated functions directly (tie T), look-alike cell texts
+    cases += gen_direct_cases(rng, scale)
     # state between calls: every 8th round trip is run twice
     for i, c in enumerate(cases):
         if c["kind"] == "rt" and i % 8 == 0:
@@ -1213,7 +1310,40 @@ def prepare(impl, c):
             c["impl"] = ("OK", impl.io.parse_scsv_schema(c["text"]))
         except Exception as e:  # noqa: BLE001
             c["impl"] = ("ERR", exc_enum(e))
-        return "(run_terse %s)" % cs(c["text"])
+        return "(run_terse2 %s %s)" % (Tables().emit(("OK", [])), cs(c["text"]))
+    if c["kind"] in ("gen_validate", "gen_cell", "gen_bool"):
+        if c["kind"] == "gen_validate":
+            c["impl"] = impl.validate(c["schema"])
+            vals = [c["schema"]]
+        elif c["kind"] == "gen_cell":
+            try:
+                c["impl"] = ("OK", impl.io._parse_scsv_cell(c["func"], c["data"], missingstr=c["missing"], fillval=c["fill"]))
+            except Exception as e:  # noqa: BLE001
+                c["impl"] = ("ERR", exc_enum(e))
+            vals = [c["data"], c["missing"], c["fill"]]
+        else:
+            try:
+                c["impl"] = ("OK", impl.io._parse_scsv_bool(c["x"]))
+            except Exception as e:  # noqa: BLE001
+                c["impl"] = ("ERR", exc_enum(e))
+            vals = [c["x"]]
+        names = []
+        for v in walk_values(vals):
+            if isinstance(v, (str, int, float, complex)) or v is None:
+                T.add_value(v)
+                if isinstance(v, str):
+                    names.append(v)
+                elif not isinstance(v, bool) and v is not None:
+                    T.add_value(str(v))
+        T.namelists.append(names)
+        T.close()
+        c["strings"] = set(T.strs)
+        tbl = T.emit(("OK", []))
+        if c["kind"] == "gen_validate":
+            return "(run_gen_validate %s %s)" % (tbl, cpy(c["schema"]))
+        if c["kind"] == "gen_cell":
+            return "(run_gen_cell %s %s %s %s %s)" % (tbl, cpy(c["func"]), cpy(c["data"]), cpy(c["missing"]), cpy(c["fill"]))
+        return "(run_gen_bool %s %s)" % (tbl, cpy(c["x"]))
     if c["kind"] == "quote":
         x = c["text"]
         try:
@@ -1315,7 +1445,7 @@ def run_coq(terms, tag):
     for k in range(0, len(terms), 250):
         path = os.path.join(d, f"C16_{tag}_{k // 250}.v")
         with open(path, "w") as f:
-            f.write("From Coq Require Import String List ZArith.\nFrom PV Require Import Model_scsv Entry_scsv.\n"
+            f.write("From Coq Require Import String List ZArith.\nFrom PV Require Import Model_scsv Model_scsv_py Entry_scsv.\n"
                     "Import ListNotations.\nOpen Scope string_scope.\n")
             f.write(pool_definitions(terms[k:k + 250]))
             for t in terms[k:k + 250]:
@@ -1337,6 +1467,8 @@ def run_coq(terms, tag):
 def parse_out(o):
     if o.startswith("T:"):
         return {"T": o[2:]}
+    if o.startswith("G:"):
+        return {"G": o[2:]}
     return dict(p.split(":", 1) for p in o.split("|"))
 
 
@@ -1406,10 +1538,44 @@ def compare(chk, cases, outs):
         if c["kind"] == "terse":
             r = c["impl"]
             exp = "OK " + schema_to_show(r[1]) if r[0] == "OK" else "ERR " + r[1]
+            parts_t = m["T"].split("#")
             count("terse_result", exp[:3])
-            chk.note_case(("terse", c["text"]), nontrivial=True, sample={"terse": c["text"], "impl": exp[:80], "model": m["T"][:80]})
-            if m["T"] != exp:
-                bad.append((c, f"parse_scsv_schema({c['text']!r}): implementation {exp}, model {m['T']}"))
+            chk.note_case(("terse", c["text"]), nontrivial=True, sample={"terse": c["text"], "impl": exp[:80], "model": parts_t[0][:80]})
+            if parts_t[0] != exp:
+                bad.append((c, f"parse_scsv_schema({c['text']!r}): implementation {exp}, model {parts_t[0]}"))
+            # the generated parser (tie T), units included
+            if len(parts_t) < 2 or parts_t[1] != "T:" + exp:
+                bad.append((c, f"parse_scsv_schema({c['text']!r}): implementation {exp}, generated parser {parts_t[1:]}"))
+            elif r[0] == "OK":
+                units = ";".join("S" + f["unit"].encode().hex() if "unit" in f else "-" for f in r[1]["fields"])
+                if len(parts_t) < 3 or parts_t[2] != "U:" + units:
+                    bad.append((c, f"parse_scsv_schema({c['text']!r}): units {units}, generated parser {parts_t[2:]}"))
+            continue
+        if c["kind"] in ("gen_validate", "gen_cell", "gen_bool"):
+            r, g = c["impl"], m["G"]
+            count("gen_direct_kind", c["kind"])
+            key = (c["kind"], repr(c.get("schema")), repr(c.get("func")), repr(c.get("data")), repr(c.get("missing")), repr(c.get("fill")), repr(c.get("x")))
+            chk.note_case(key, nontrivial=True, sample=None)
+            for x in c.get("strings", ()):
+                if x.strip() != x.strip(WS):
+                    bad.append((c, f"residual: str.strip is not ASCII strip on {x!r}"))
+            if g == "ERR EUnmodelled":
+                count("gen_direct_outcome", "outside the primitives (EUnmodelled)")
+                continue
+            if r[0] == "ERR":
+                okc = g == "ERR " + r[1]
+            else:
+                try:
+                    okc = g.startswith("OK ") and g[3:] not in ("?",) and (
+                        (g[3:] == "N" and r[1] is None) or (g[3:] != "N" and same_value(dec_cell(g[3:]), r[1])))
+                except Exception:  # noqa: BLE001
+                    okc = False
+            count("gen_direct_outcome", ("agree: " + (r[1] if r[0] == "ERR" else type(r[1]).__name__)))
+            if not okc:
+                what = {"gen_validate": lambda: f"_validate_scsv_schema({c['schema']!r})",
+                        "gen_cell": lambda: f"_parse_scsv_cell({c['func'].__name__}, {c['data']!r}, missingstr={c['missing']!r}, fillval={c['fill']!r})",
+                        "gen_bool": lambda: f"_parse_scsv_bool({c['x']!r})"}[c["kind"]]()
+                bad.append((c, f"{what}: implementation {r}, generated function {g}"))
             continue
         if c["kind"] == "quote":
             x, r = c["text"], c["impl"]
@@ -1785,7 +1951,9 @@ def _run(chk, ok, br, tmp):
                         "broken": chk.cov.get("broken_obligations", []), "disagreements": [m for _, m in bad[:3]]})
     else:
         chk.replay({"kind": "unproved", "broken": chk.cov.get("broken_obligations", []),
-                    "disagreements": [{"input": encode_case(c) if c.get("kind") in ("rt", "file") else c["text"], "detail": m} for c, m in bad[:3]],
+                    "disagreements": [{"input": encode_case(c) if c.get("kind") in ("rt", "file") else
+                                       c.get("text", repr({k: c[k] for k in ("schema", "func", "data", "missing", "fill", "x") if k in c})),
+                                       "detail": m} for c, m in bad[:3]],
                     "note": "proof obligation or correspondence no longer checks; no failing input found by the search"},
                    no_input=True)
 
